@@ -29,7 +29,9 @@ Inductive rv :=
 | VFErr (g : Z -> Z)
 | VCallback                              (* a user callback whose effect is outside the model (tap) *)
 | VSrc                                   (* the upstream observable: actual_subscribe(o) hands o over *)
-| VPanic.                                (* the result of a usize subtraction that underflows *)
+| VPanic                                 (* the result of a usize subtraction that underflows *)
+| VEnum (c : string) (args : list rv)    (* a variant of one of the crate's enums: ZipItem::ItemA(v) *)
+| VRef (path : list string).             (* `let inner = self.rc_deref_mut()`: a name for a place inside self *)
 
 Definition env := list (string * rv).
 
@@ -143,6 +145,8 @@ Fixpoint place_of (e : rx) : option place :=
   | XVar x => Some (Some x, [])
   | XRef e' => place_of e'
   | XField e' f => match place_of e' with Some (r, p) => Some (r, cat p [f]) | None => None end
+  | XMeth e' m [] =>
+      if String.eqb m "rc_deref_mut" || String.eqb m "rc_deref" then place_of e' else None
   | _ => None
   end.
 
@@ -192,7 +196,12 @@ Fixpoint set_path (v : rv) (p : list string) (x : rv) : option rv :=
 Definition get_place (fr : frame) (pl : place) : option rv :=
   match fst pl with
   | None => get_path (fself fr) (snd pl)
-  | Some x => match lookup x (flocals fr) with Some v => get_path v (snd pl) | None => None end
+  | Some x =>
+      match lookup x (flocals fr) with
+      | Some (VRef p0) => get_path (fself fr) (cat p0 (snd pl))
+      | Some v => get_path v (snd pl)
+      | None => None
+      end
   end.
 
 Definition set_place (fr : frame) (pl : place) (x : rv) : option frame :=
@@ -201,6 +210,9 @@ Definition set_place (fr : frame) (pl : place) (x : rv) : option frame :=
             | Some s => Some {| fself := s; flocals := flocals fr |} | None => None end
   | Some y =>
       match lookup y (flocals fr) with
+      | Some (VRef p0) =>
+          match set_path (fself fr) (cat p0 (snd pl)) x with
+          | Some s => Some {| fself := s; flocals := flocals fr |} | None => None end
       | Some v => match set_path v (snd pl) x with
                   | Some v' => match update y v' (flocals fr) with
                                | Some l => Some {| fself := fself fr; flocals := l |} | None => None end
@@ -248,6 +260,37 @@ Fixpoint bind_pat (p : rpat) (v : rv) {struct p} : mres :=
           if String.eqb c "Some" then match ps with [p1] => bind_pat p1 x | _ => MBad end
           else if String.eqb c "None" then match ps with [] => MNo | _ => MBad end
           else MBad
+      | VEnum c' vs =>
+          if String.eqb c c' then
+            (fix go (ps : list rpat) (vs : list rv) : mres :=
+               match ps, vs with
+               | [], [] => MYes []
+               | p1 :: ps', v1 :: vs' =>
+                   match bind_pat p1 v1 with
+                   | MYes b1 => match go ps' vs' with MYes b2 => MYes (cat b2 b1) | r => r end
+                   | r => r
+                   end
+               | _, _ => MBad
+               end) ps vs
+          else MNo
+      | _ => MBad
+      end
+  | PStruct _ fps =>
+      match v with
+      | VStruct _ fs =>
+          (fix go (fps : list (string * rpat)) : mres :=
+             match fps with
+             | [] => MYes []
+             | (f, p1) :: fps' =>
+                 match lookup f fs with
+                 | Some v1 =>
+                     match bind_pat p1 v1 with
+                     | MYes b1 => match go fps' with MYes b2 => MYes (cat b2 b1) | r => r end
+                     | r => r
+                     end
+                 | None => MBad
+                 end
+             end) fps
       | _ => MBad
       end
   | PBool b => match v with VBool c => if Bool.eqb b c then MYes [] else MNo | _ => MBad end
@@ -350,6 +393,10 @@ Definition builtin (m : string) (recv : rv) (args : list rv) : option (rv * rv *
       else if String.eqb m "clone" || String.eqb m "into_iter" || String.eqb m "iter" then
         match args with [] => same recv | _ => None end
       else None
+  | VStruct _ _ =>
+      if String.eqb m "rc_deref_mut" || String.eqb m "rc_deref" || String.eqb m "clone" then
+        match args with [] => same recv | _ => None end
+      else None
   | VSrc =>
       if String.eqb m "actual_subscribe" then match args with [o] => Some (o, recv, []) | _ => None end else None
   | VItem _ | VNat _ | VBool _ | VTup _ =>
@@ -391,6 +438,26 @@ Fixpoint for_loop {S} (step : S -> rv -> option S) (l : list rv) (s : S) : optio
   match l with
   | [] => Some s
   | x :: l' => match step s x with Some s' => for_loop step l' s' | None => None end
+  end.
+
+(* comparisons for the evaluator's own book-keeping (symbolic evaluation computes these; Nat.leb / Nat.eqb stay folded on data) *)
+Fixpoint nleb (a b : nat) : bool := match a, b with O, _ => true | S _, O => false | S a', S b' => nleb a' b' end.
+Definition neqb (a b : nat) : bool := nleb a b && nleb b a.
+
+(* `ZipItem::ItemA` -> `ItemA` *)
+Fixpoint last_seg_aux (acc : string) (p : string) : string :=
+  match p with
+  | EmptyString => acc
+  | String c1 (String c2 r as r1) =>
+      if (neqb (Ascii.nat_of_ascii c1) 58 && neqb (Ascii.nat_of_ascii c2) 58)%bool then last_seg_aux r r else last_seg_aux acc r1
+  | String _ r => last_seg_aux acc r
+  end.
+Definition last_seg (p : string) : string := last_seg_aux p p.
+
+Definition capitalised (p : string) : bool :=
+  match p with
+  | String c _ => let n := Ascii.nat_of_ascii c in nleb 65 n && nleb n 90
+  | EmptyString => false
   end.
 
 Definition prog := list (string * string * (list string * list rs)).
@@ -440,7 +507,12 @@ Fixpoint eval_x (fuel : nat) (s : st) (e : rx) {struct fuel} : option (st * rv) 
     let '(fr, out) := s in
     match e with
     | XSelf => Some (s, fself fr)
-    | XVar x => match lookup x (flocals fr) with Some v => Some (s, v) | None => None end
+    | XVar x =>
+        match lookup x (flocals fr) with
+        | Some (VRef p0) => match get_path (fself fr) p0 with Some v => Some (s, v) | None => None end
+        | Some v => Some (s, v)
+        | None => None
+        end
     | XNum n => Some (s, VNat n)
     | XBool b => Some (s, VBool b)
     | XUnit => Some (s, VUnit)
@@ -508,7 +580,19 @@ Fixpoint eval_x (fuel : nat) (s : st) (e : rx) {struct fuel} : option (st * rv) 
                   | None => None end
               | _, _ => None end
           | _ => None end
-        else None
+        else
+          match lookup p (flocals fr) with
+          | Some clo =>                                (* a closure held in a local: binary_op(a, b) *)
+              match eval_args f s args with
+              | Some (s', vs) => match apply_closure clo vs with Some r => Some (s', r) | None => None end
+              | None => None end
+          | None =>
+              if capitalised (last_seg p) then           (* a variant of one of the crate's enums *)
+                match eval_args f s args with
+                | Some (s', vs) => Some (s', VEnum (last_seg p) vs)
+                | None => None end
+              else None
+          end
     | XCall g args =>
         match eval_x f s g with
         | Some (s', clo) =>
@@ -541,7 +625,10 @@ Fixpoint eval_x (fuel : nat) (s : st) (e : rx) {struct fuel} : option (st * rv) 
                 let recv2 := match pl with Some pl' => get_place fr2 pl' | None => Some recv end in
                 match recv2 with
                 | Some (VStruct name flds) =>
-                    match find_method P (file ++ ":" ++ name)%string m with
+                    match (match find_method P (file ++ ":" ++ name)%string m with
+                           | Some b => Some b
+                           | None => find_method P (file ++ ":$rc<" ++ name ++ ">")%string m
+                           end) with
                     | Some (ps, body) =>
                         match zip_params ps vs with
                         | Some locals =>
@@ -709,6 +796,18 @@ with eval_block (fuel : nat) (s : st) (b : list rs) {struct fuel} : option (st *
             | _ => eval_block f s' b'
             end in
           match stmt with
+          | SLet (PVar x) (XMeth r m []) =>
+              (* `let inner = self.rc_deref_mut();` names the content of the cell: a reference, not a copy *)
+              let as_value :=
+                match eval_x f s (XMeth r m []) with
+                | Some ((fr', out'), v) => continue_with (push_locals fr' [(x, v)], out') VUnit false
+                | None => None end in
+              if String.eqb m "rc_deref_mut" || String.eqb m "rc_deref" then
+                match place_of r with
+                | Some (None, p0) => continue_with (push_locals (fst s) [(x, VRef p0)], snd s) VUnit false
+                | _ => as_value
+                end
+              else as_value
           | SLet p e =>
               match eval_x f s e with
               | Some ((fr', out'), v) =>
@@ -749,7 +848,10 @@ with eval_block (fuel : nat) (s : st) (b : list rs) {struct fuel} : option (st *
 
 (* One call of a method of a struct value: the events it sends downstream, the struct afterwards, the result. *)
 Definition call_method (fuel : nat) (ty m : string) (self : rv) (args : list rv) : option (rv * list ev * rv) :=
-  match find_method P (file ++ ":" ++ ty)%string m with
+  match (match find_method P (file ++ ":" ++ ty)%string m with
+         | Some b => Some b
+         | None => find_method P (file ++ ":$rc<" ++ ty ++ ">")%string m
+         end) with
   | Some (ps, body) =>
       match zip_params ps args with
       | Some locals =>
